@@ -64,6 +64,13 @@ def product_ob(prog, mkind, fkind, op, update_full, batch):
         if res.cls != "GaussianMeasure":
             raise Refuted(f"product returned a {res.cls}", anchor)
         got = obj_ln(res, x)
+        # the result is a batch of R components in every field (otherwise a following product()/slice() reduces a broadcast
+        # size-1 axis instead of the components)
+        Rres = (R1 if R2 == D(1) else R2) if op == "hadamard" else R1 * R2
+        for k in ("Lambda", "nu", "ln_beta", "Sigma", "ln_det_Sigma", "ln_det_Lambda"):
+            v = res.f.get(k)
+            if isinstance(v, nf.Val) and (not v.axes or v.shape[0] != Rres):
+                raise Refuted(f"result field {k} has leading size {v.shape[0] if v.axes else 'scalar'} instead of the component count {Rres}", anchor)
         if op == "hadamard":
             ref = nf.add(ln_u, ln_f)
         else:
@@ -83,7 +90,7 @@ def product_ob(prog, mkind, fkind, op, update_full, batch):
         return d, info
     uf = "" if op == "*" else f"/full={int(update_full)}"
     return Ob(f"product/{op}/{fkind}/{mkind}/{batch}{uf}", run,
-              "ln(result)(x) == ln u_i(x) + ln f_j(x) at component i*R2+j (hadamard: shared / broadcast index); operands unchanged",
+              "ln(result)(x) == ln u_i(x) + ln f_j(x) at component i*R2+j (hadamard: shared / broadcast index); every field of the result carries the component axis; operands unchanged",
               anchor, group="product")
 
 
